@@ -1,9 +1,11 @@
 package core
 
 import (
+	"encoding/hex"
 	"testing"
 
 	"github.com/koron-go/z80/verifharness/eng"
+	"github.com/koron-go/z80/verifharness/stats"
 	"pgregory.net/rapid"
 )
 
@@ -18,4 +20,121 @@ func TestC14Step(t *testing.T) {
 		"(1 / 2 / DDCB,FDCB 2-or-3, bit 7 kept, LD R,A / LD I,A the only writers); "
 	rapid.Check(t, p.property(false))
 	p.finishClasses()
+}
+
+// TestC14Enum: every implemented encoding x all 256 starting values of R x I in
+// {0x00, 0x7F, 0x80, 0xFF, drawn}; LD A,R / LD A,I additionally x IFF2 x all 256 F with the
+// flags compared.
+func TestC14Enum(t *testing.T) {
+	col := stats.New("C14")
+	col.Sub = "enum"
+	defer finish(t, col)
+	col.Rule = "enum: every implemented encoding (930) x all 256 starting values of R x I in {0x00,0x7F,0x80,0xFF,drawn}, other state drawn by rapid once per round; LD A,R and LD A,I additionally x IFF2 x all 256 F " +
+		"with A and all flags compared (S, Z, 5/3 from the value, H = N = 0, P/V = IFF2, C kept); soup: multi-Step programs incl. block repeats and parked HALT with R and I compared after every Step; " +
+		"non-trivial = start value within 3 of the 0x7F wrap or with bit 7 set; distinct by construction within a round x hash(round state)"
+	rig := newStepRig()
+	focusEnc := -1
+	rapid.Check(t, func(t *rapid.T) {
+		d := drawStep(t, false)
+		round := stateHash(&d.st)
+		for ei := range allEncodings {
+			if focusEnc >= 0 && ei != focusEnc {
+				continue
+			}
+			e := &allEncodings[ei]
+			code := e.bytes(d.ops)
+			isLdA := len(e.pre) == 2 && e.pre[0] == 0xED && (e.pre[1] == 0x57 || e.pre[1] == 0x5F)
+			for _, iv := range []uint8{0x00, 0x7F, 0x80, 0xFF, d.st.I} {
+				for r := 0; r < 256; r++ {
+					c := stepCase{Enc: e.name, St: d.st, MemSeed: d.memSeed, IOSeed: d.ioSeed, Fill: d.fill, IOFill: d.ioFill}
+					c.St.I, c.St.R = iv, uint8(r)
+					fs := []int{int(d.st.F)}
+					if isLdA && iv == d.st.I {
+						fs = fs[:0]
+						for f := 0; f < 256; f++ {
+							fs = append(fs, f)
+						}
+					}
+					for _, f := range fs {
+						for iff2 := 0; iff2 < 2; iff2++ {
+							if !isLdA && iff2 == 1 {
+								break
+							}
+							if isLdA {
+								c.St.F, c.St.IFF2 = uint8(f), iff2 == 1
+							}
+							o := rig.run(&c, code)
+							col.Eval(1)
+							if o.skipped || (o.logged && !o.in.Documented) {
+								continue
+							}
+							for _, dc := range o.discs {
+								mine := dc.Kind == eng.KRefresh || dc.Kind == eng.KPanic || (isLdA && (dc.Kind == eng.KFlags || dc.Kind == eng.KState))
+								if mine {
+									c.Bytes = hex.EncodeToString(code)
+									focusEnc = ei
+									violation(t, "C14", "step", c, "fetch-count rule ("+o.in.Class+")", dc.Kind+": "+dc.Msg)
+								}
+							}
+							if r&0x80 != 0 || r&0x7f >= 0x7c {
+								col.Distinct(stats.Hash(round, uint64(ei), uint64(iv), uint64(r), uint64(f), uint64(iff2)))
+							}
+						}
+					}
+				}
+			}
+		}
+		col.Sample(round, stepCase{Enc: "ed5f", Bytes: "ed5f", St: d.st, MemSeed: d.memSeed, Fill: d.fill, IOFill: d.ioFill})
+	})
+}
+
+// TestC14Soup: R and I after every Step of multi-Step programs (block repeats +2 per repetition,
+// +1 per Step spent on HALT).
+func TestC14Soup(t *testing.T) {
+	col := stats.New("C14")
+	col.Sub = "soup"
+	defer finish(t, col)
+	rig := newLockRig()
+	rapid.Check(t, func(t *rapid.T) {
+		c := genSoup(t, 16, 200)
+		if rapid.IntRange(0, 2).Draw(t, "halt-early") == 0 {
+			// park on a HALT for the rest of the run
+			k := rapid.IntRange(0, len(c.Code)).Draw(t, "haltAt")
+			c.Code = append(append([]int{}, c.Code[:k]...), 0x76)
+		}
+		msg, steps, trunc, classes := soupLockstep(rig, &c, map[string]bool{eng.KRefresh: true})
+		col.Eval(1)
+		if msg != "" {
+			violation(t, "C14", "soup", c, "fetch-count rule, every Step", msg)
+		}
+		col.LabelN("soup-steps", int64(steps))
+		if trunc {
+			col.Label("soup-truncated")
+		}
+		halts, reps := 0, 0
+		for _, cl := range classes {
+			switch cl {
+			case "HALT":
+				halts++
+			case "LDx", "CPx", "INx", "OUTx":
+				reps++
+			}
+		}
+		if halts >= 2 {
+			col.Label("parked-on-halt")
+		}
+		if reps >= 2 {
+			col.Label("block-elements>=2")
+		}
+		if steps >= 2 {
+			h := stateHash(&c.St)
+			for _, b := range c.Code {
+				h = stats.Hash(h, uint64(b))
+			}
+			col.Distinct(h)
+			if col.WantSample(h) && len(c.Code) < 30 {
+				col.Sample(h, c)
+			}
+		}
+	})
 }
